@@ -74,12 +74,9 @@ def stepsEval (F : Facts) (prim : Prim V S) (target : V) (f : Obj V → Run S Er
     List (String × Obj V) → Nat → S → V → Except Err V × S
   | [], _, s, cur => (.ok cur, s)
   | (c, a) :: rest, k, s, cur =>
-    match f a s with
-    | (.error e, s1) => (.error e, s1)
-    | (.ok av, s1) =>
-      match applyBranch F prim target k c s1 cur av with
-      | (.ok v, s2) => stepsEval F prim target f rest (k + 1) s2 v
-      | (.error e, s2) => (.error e, s2)
+    match stepOp F prim target k c s cur (f a) with
+    | (.ok v, s2) => stepsEval F prim target f rest (k + 1) s2 v
+    | (.error e, s2) => (.error e, s2)
 
 /-- the loop on the flat tuple, started at the op slot of step `pre.length`, is
     the structural evaluation of the remaining steps (`i // 2` is the step number) -/
@@ -107,22 +104,16 @@ theorem tLoop_eq_steps (F : Facts) (prim : Prim V S) (target : V) (f : Obj V →
     have hdiv : (1 + 2 * pre.length) / 2 = pre.length := by omega
     rw [hdiv]
     simp only [stepsEval]
-    cases hf : f a s with
-    | mk r s1 =>
-      cases r with
+    cases hb : stepOp F prim target pre.length c s cur (f a) with
+    | mk r2 s2 =>
+      cases r2 with
       | error e => rfl
-      | ok av =>
+      | ok v =>
         simp only
-        cases hb : applyBranch F prim target pre.length c s1 cur av with
-        | mk r2 s2 =>
-          cases r2 with
-          | error e => rfl
-          | ok v =>
-            simp only
-            have := ih (pre ++ [(c, a)]) s2 v
-            simp only [List.append_assoc, List.singleton_append, List.length_append,
-              List.length_singleton] at this
-            rw [show 1 + 2 * pre.length + 2 = 1 + 2 * (pre.length + 1) by omega, this]
+        have := ih (pre ++ [(c, a)]) s2 v
+        simp only [List.append_assoc, List.singleton_append, List.length_append,
+          List.length_singleton] at this
+        rw [show 1 + 2 * pre.length + 2 = 1 + 2 * (pre.length + 1) by omega, this]
 
 /-! ### a recorded op char is dispatched to the operation its dunder denotes -/
 
@@ -138,7 +129,7 @@ theorem recorded_wf {F : Facts} (hwf : WF F = true) {d c : String} (hc : charOf 
     ∃ kind ks caught, meaning d = some kind ∧ dispatchOf F c = some (ks, caught) ∧
       Kind.ofString ks = kind ∧ caughtOfKind F kind = caught := by
   simp only [WF, Bool.and_eq_true] at hwf
-  have hnd := hwf.1.1.1.1
+  have hnd := hwf.1.1.1.1.1
   simp only [noDroppedOp, List.all_eq_true] at hnd
   simp only [charOf, Option.map_eq_some_iff] at hc
   obtain ⟨⟨d', c'⟩, hfind, hc'⟩ := hc
@@ -154,25 +145,79 @@ theorem recorded_wf {F : Facts} (hwf : WF F = true) {d c : String} (hc : charOf 
     exact ⟨kind, ks, caught, hm, hdsp, this.1, this.2⟩
   · contradiction
 
-/-- `hplain`: the second `arg_val` pass of `Call.glomit` only rebuilds plain
-    containers (no glom spec objects inside the target's data) -/
-def Plain (prim : Prim V S) : Prop :=
-  ∀ s t f args kwargs, prim.revalCall s t f args kwargs = prim.passCall s f args kwargs
+/-- the character exempted from `arg_val` in the loop is the call branch's, and only it -/
+theorem callChar_wf {F : Facts} (hwf : WF F = true) {c ks : String} {caught : List String}
+    (hd : dispatchOf F c = some (ks, caught)) :
+    (Kind.ofString ks == .call) = (c == callChar) := by
+  simp only [WF, Bool.and_eq_true] at hwf
+  have hcc := hwf.1.1.1.2
+  simp only [callCharOk, List.all_eq_true] at hcc
+  simp only [dispatchOf, Option.map_eq_some_iff] at hd
+  obtain ⟨⟨c', ks', caught'⟩, hfind, heq⟩ := hd
+  simp only [Prod.mk.injEq] at heq
+  obtain ⟨rfl, rfl⟩ := heq
+  have hmem := List.mem_of_find?_eq_some hfind
+  have hc := List.find?_some hfind
+  simp only [beq_iff_eq] at hc; subst hc
+  have := hcc _ hmem
+  simpa using this
 
-theorem applyBranch_eq (F : Facts) (prim : Prim V S) (hplain : Plain prim)
-    (target : V) (k : Nat) (c : String) (s : S) (cur : V) (av : AV V) (kind : Kind) (ks : String)
-    (caught : List String) (hd : dispatchOf F c = some (ks, caught))
+/-- `hcallee`: the `arg_val` pass of `Call.glomit` over the already evaluated callee
+    returns it (a callable is a literal in argument mode; the callee is not a glom spec
+    object stored inside the target's data) -/
+def PlainCallee (prim : Prim V S) : Prop :=
+  ∀ s t f, prim.revalFunc s t f = (f, s)
+
+theorem guarded_eq (F : Facts) (k : Nat) (kind : Kind) (caught : List String) (s : S)
+    (hc : caughtOfKind F kind = caught) (r : Except PyExc V × S) :
+    guarded F caught k r = stepOut F k kind s (some r) := by
+  obtain ⟨r, s1⟩ := r
+  cases r with
+  | ok v => rfl
+  | error e => simp only [guarded, guardE, stepOut, errOf, hc]; split <;> rfl
+
+/-- one iteration of the loop body = evaluate the argument, then apply the operation
+    the dunder denotes -/
+theorem stepOp_eq (F : Facts) (hwf : WF F = true) (prim : Prim V S) (hcallee : PlainCallee prim)
+    (target : V) (k : Nat) (c : String) (s : S) (cur : V) (ev : Run S Err (AV V)) (kind : Kind)
+    (ks : String) (caught : List String) (hd : dispatchOf F c = some (ks, caught))
     (hk : Kind.ofString ks = kind) (hc : caughtOfKind F kind = caught) :
-    applyBranch F prim target k c s cur av = stepOut F k kind s (pyApply prim kind s cur av) := by
-  have hg : ∀ (r : Except PyExc V × S), guarded F caught k r = stepOut F k kind s (some r) := by
-    intro r
-    obtain ⟨r, s1⟩ := r
-    cases r with
-    | ok v => rfl
-    | error e => simp only [guarded, guardE, stepOut, errOf, hc]; split <;> rfl
-  unfold applyBranch
-  simp only [hd, hk]
-  cases kind <;> cases av <;> simp only [pyApply, hg, hplain s target] <;> rfl
+    stepOp F prim target k c s cur ev =
+      match ev s with
+      | (.error e, s1) => (.error e, s1)
+      | (.ok av, s1) => stepOut F k kind s1 (pyApply prim kind s1 cur av) := by
+  have hcc := callChar_wf hwf hd
+  rw [hk] at hcc
+  unfold stepOp
+  by_cases hch : (c == callChar) = true
+  · have hkc : kind = .call := by rw [hch] at hcc; simpa using hcc
+    subst hkc
+    simp only [hch, if_true, hd, hk, hcallee s target cur]
+    cases hev : ev s with
+    | mk r s1 =>
+      cases r with
+      | error e => rfl
+      | ok av =>
+        cases av with
+        | val v => rfl
+        | call args kwargs => simp only [pyApply, guarded_eq F k .call caught s1 hc]
+  · have hne : (kind == Kind.call) = false := by
+      rw [hcc]; simpa using hch
+    simp only [hch]
+    cases hev : ev s with
+    | mk r s1 =>
+      cases r with
+      | error e => rfl
+      | ok av =>
+        simp only [Bool.false_eq_true, if_false]
+        unfold applyBranch
+        simp only [hd, hk]
+        cases kind <;> cases av <;>
+          first
+          | (simp at hne; done)
+          | (simp only [pyApply, guarded_eq F k _ caught s1 hc]; done)
+          | (simp only [pyApply]; rfl)
+          | rfl
 
 /-! ### lists of optional / exceptional results -/
 
@@ -267,7 +312,7 @@ def refStep (prim : Prim V S) (target : V) (st : String × E V) :
                  else refArg prim target st.2)
 
 theorem stepsEval_eq_fold (F : Facts) (hwf : WF F = true) (prim : Prim V S)
-    (hplain : Plain prim) (target : V)
+    (hcallee : PlainCallee prim) (target : V)
     {steps : List (String × E V)} {cells : List (String × Obj V)}
     (h2 : All2 (fun st cell => recStep F prim.none st = some cell) steps cells)
     (ih : ∀ st ∈ steps, ∀ o, record F prim.none st.2 = some o →
@@ -315,6 +360,7 @@ theorem stepsEval_eq_fold (F : Facts) (hwf : WF F = true) (prim : Prim V S)
       simp only [stepsEval, List.map_cons, foldSteps, hav]
       have hfst : (refStep prim target (d, a)).1 = some kind := by simp [refStep, hm]
       rw [hfst]
+      rw [stepOp_eq F hwf prim hcallee target k c' s cur _ kind ks caught hd hk hcg]
       simp only [outRun, outS]
       cases hra : (refStep prim target (d, a)).2 s with
       | mk x s1 =>
@@ -322,7 +368,6 @@ theorem stepsEval_eq_fold (F : Facts) (hwf : WF F = true) (prim : Prim V S)
         | error e => rfl
         | ok av =>
           simp only [outOf]
-          rw [applyBranch_eq F prim hplain target k c' s1 cur av kind ks caught hd hk hcg]
           cases hp : pyApply prim kind s1 cur av with
           | none => rfl
           | some r =>
@@ -455,7 +500,7 @@ theorem refArg_spec_nontexpr (prim : Prim V S) (target : V) (e : E V)
   | _ => rw [refArg] <;> simp
 
 theorem argVal_record (F : Facts) (hwf : WF F = true) (prim : Prim V S)
-    (hplain : Plain prim) (target : V) :
+    (hcallee : PlainCallee prim) (target : V) :
     ∀ (e : E V) (o : Obj V), record F prim.none e = some o →
       argVal F prim target o = outRun F (refArg prim target e) := by
   intro e
@@ -475,7 +520,7 @@ theorem argVal_record (F : Facts) (hwf : WF F = true) (prim : Prim V S)
       funext s
       simp only [outRun]
       rw [argVal_tt_T, refArg_texpr,
-        stepsEval_eq_fold F hwf prim hplain target (allSome_forall2 _ _ _ hc) ih 0 s target]
+        stepsEval_eq_fold F hwf prim hcallee target (allSome_forall2 _ _ _ hc) ih 0 s target]
       cases hq : foldSteps prim (steps.map (refStep prim target)) 0 s target with
       | mk x s1 => cases x <;> rfl
   | spec e ih =>
@@ -618,7 +663,7 @@ theorem kindsOk_of_wf {F : Facts} (hwf : WF F = true) (kind : Kind) :
     (∀ n ∈ docCaught kind, caughtBy F (caughtOfKind F kind) ⟨n⟩ = true) ∧
     (kind = .call → caughtOfKind F kind = []) := by
   simp only [WF, Bool.and_eq_true] at hwf
-  have hk := hwf.1.1.1.2
+  have hk := hwf.1.1.1.1.2
   simp only [kindsOk, List.all_eq_true, Bool.and_eq_true, Bool.or_eq_true] at hk
   have := hk kind (mem_allKinds kind)
   refine ⟨this.1, fun hc => ?_⟩
